@@ -218,7 +218,7 @@ def replay_container(prop, path):
         trace = r.run_twins(p["calls"])
     else:
         r = C.Replayer(p["kind"], p["weighted"], p["n"], p["family"], seed=p["replay_seed"],
-                       late=(p["replay_seed"] % 4 == 3), **ra)
+                       late=(p["replay_seed"] % 4 == 3), query_prob=(0.25 if p["replay_seed"] % 4 == 2 else 0.8), **ra)
         trace = r.run(p["calls"])
     v = C.validate(p["kind"], [trace], procs=1)
     wanted = set(rp["signature"].get("clauses", []))
